@@ -217,7 +217,8 @@ def run(ctx):
                             'truncated inside a message, replaced by another log of different size (full index); opened with MixedLogReader (ignore_index False; True for 4 cut lengths), read to the end, '
                             'then re-opened; num_threads=1 except every ~11th case (default pool). Compared: message offsets/lengths/bytes, exception, .p1i afterwards. '
                             'A case is distinct by (data file, index bytes, ignore_index).' % (len(logs), 'every message boundary' if ctx.thorough else 'the end/start of the last indexed message and one random boundary'))
-    ctx.coverage['exhaustive'] = 'truncation lengths of the index file: all; data histories: listed set'
+    ctx.coverage['exhaustive'] = False
+    ctx.coverage['exhaustive_scope'] = 'truncation lengths of the index file: all 0..len; data histories and logs: the listed / generated sets (not exhaustive)'
     ctx.trusted_base += ['Coq 8.16.1 kernel + vm_compute', 'extraction (ExtrOcamlBasic only), ocaml/conv.ml + c09_driver.ml',
                          'np.fromfile (whole records, partial tail ignored), ndarray.tofile, structured casts: modelled as little-endian u4/u2/u8 records',
                          'fast_generate_index regeneration = index of the sequential scan (C08) with P1 times from the payload classes (parameter p1 of the model; values taken from the library in the run)',
